@@ -4,7 +4,7 @@
    type_affinity_stable with the identifier and type tables regenerated from the current source. *)
 From Coq Require Import List NArith Bool.
 Import ListNotations.
-From SAV.sql Require Import Ident Reflect ReflectProofs ReflectAffinity ReflectTheorems ReflectIndex.
+From SAV.sql Require Import Ident Reflect ReflectProofs ReflectAffinity ReflectTheorems ReflectIndex ReflectInfo.
 Open Scope N_scope.
 
 (* parse_master_sql (render_ddl tbl) = constraints_of tbl: for EVERY text made of arbitrary segments (header,
@@ -131,3 +131,19 @@ Example c15_index_pred_newline_roundtrip :
   pred_search (render_index false [105] [116] [[120]] (Some [34; 97; 10; 98; 34; 32; 62; 32; 48])) =
   Some [34; 97; 10; 98; 34; 32; 62; 32; 48].
 Proof. exact index_pred_newline_roundtrip. Qed.
+
+(* ---- _ReflectionInfo.update: the merge used when a table is reflected because a foreign key points at it keeps
+        EVERY category of the pulled-in table (unique constraints included), when update() visits every category
+        (extracted from the source on every run: gen_info_merged_ok) *)
+Theorem c15_reflection_info_update_complete : forall merged nfields, (forall f, f < nfields -> memN' f merged = true) ->
+  forall self other f k, f < nfields ->
+  lookup (update merged self other) f k =
+  match lookup other f k with Some v => Some v | None => lookup self f k end.
+Proof. exact update_complete. Qed.
+Print Assumptions c15_reflection_info_update_complete.
+Theorem c15_update_missing_category_refuted :
+  let self := fun f => Some [(1, 10 + f)] in
+  let other := fun f => Some [(2, 20 + f)] in
+  lookup (update [0; 1; 2; 3; 5; 6; 7; 8] self other) 4 2 = None /\
+  lookup (update [0; 1; 2; 3; 4; 5; 6; 7; 8] self other) 4 2 = Some 24.
+Proof. exact update_missing_category_refuted. Qed.
